@@ -44,7 +44,7 @@ var (
 type VEVM struct {
 	Faults bool
 	// NoKey: validators (by index) without an account registered for the chain
-	NoKey map[int]bool
+	NoKey  map[int]bool
 	Chains []string
 }
 
